@@ -360,6 +360,16 @@ def judge(case):
                     NW = W.normalized()
                     if K.dot([float(x) for x in _comps(NW)], [float(x) * kk for x in a]) <= 0:
                         mu.fail("numeric:scaled-copy-direction", "normalized(v*%r) points against v*%r" % (kk, kk))
+        # the component formulas at this magnitude (products of two small numbers are small, not zero)
+        exa, exb = [F(x) for x in a], [F(x) for x in b]
+        wc = [exa[1] * exb[2] - exa[2] * exb[1], exa[2] * exb[0] - exa[0] * exb[2], exa[0] * exb[1] - exa[1] * exb[0]]
+        gc = _comps(A.cross(B))
+        scale = float(max(abs(x) for x in exa)) * float(max(abs(x) for x in exb))
+        if any(abs(float(g) - float(w)) > 1e-12 * scale for g, w in zip(gc, wc)):
+            mu.fail("numeric:cross-wrong-components/magnitude-1e%d" % mag, "cross product %r, textbook %r" % (gc, [float(w) for w in wc]))
+        wd = sum(x * y for x, y in zip(exa, exb))
+        if abs(float(A * B) - float(wd)) > 1e-12 * scale * 3:
+            mu.fail("numeric:dot-wrong/magnitude-1e%d" % mag, "dot product %r, textbook %r" % (A * B, float(wd)))
         ang = A.angle(B)
         c2 = K.cos2([F(x) for x in a], [F(x) for x in b])
         dotp = sum(F(x) * F(y) for x, y in zip(a, b))
